@@ -62,6 +62,17 @@ CHECKS['C19'] = dict(
         'overflow of seed+1/seed-1 at INT_MAX/INT_MIN wraps (gcc); Coq kernel; translator; extraction; gcc.',
    technique='Coq proof (byte/word arithmetic characterisation, injectivity of the xor block), differential correspondence + independent MD5',
    design='4/C19')
+CHECKS['C08'] = dict(
+   text='Coq theorems for every hostname limit L in 100..255, every accepted tunnel domain with |d|+24 <= L, all four codecs and every non-empty '
+        'payload: the query name built for data chunks, probes and ping/version/login/set-fragsize messages is a legal DNS name of at most L-2 '
+        'chars ending in the domain (labels 1..63, wire <= 255), carries a non-empty payload prefix of exactly the reported length, the query '
+        'datagram decodes on the server to the same name/type/id, the label-boundary matcher (plain, other-case or wildcard server domain) '
+        'finds the data part and unpack_data returns exactly that prefix. inline_dotify (in-place backward loop) proved equal to the forward '
+        'spec. Built on the C07 and C17 theorems. Tied to encoding.c/client.c/read.c/dns.c by correspondence over all (L, codec) and domain lengths.',
+   note='Trusts: the server-side offsets (in+5 / in+1) are exercised on the real handle_null_request by the server-history and whole-system '
+        'correspondence runs (C01, C03..C16), not by this check; -M below |d|+8 underflows in the C and is outside the property; Coq kernel; translator; extraction; gcc.',
+   technique='Coq proof (dotify loop invariant, putname/readname round trip, composition with codec and matcher theorems), differential correspondence',
+   design='4/C08')
 NOT_YET = {}
 
 def main():
